@@ -49,9 +49,9 @@ CHECKS = {
     "C19": dict(cat="exploration", tech="histories of library calls with ghost snapshots of the block's design-relevant state (frame condition) and a final synthesize_trials",
                 text="All single calls, every strategy called twice, and seeded call sequences (length 2 quick / 3 thorough) over eleven call kinds (five strategies incl. SMGen, CMSGen) on 15 blocks incl. four with continuous factors; a synthesize_trials call that raises inside a history although it succeeds as the first call on a fresh block in a process of its own is a violation; the snapshot must be unchanged after every call and the final synthesis must succeed, be valid and return the same columns.",
                 note="State snapshot covers design, orig_design, crossings, constraint classes, continuous factors, exclusions, min_trials, act_design, errors, level names.", ref="4.3 C19"),
-    "C20": dict(cat="exploration", tech="bounded contract evaluation of the conversion functions on synthesized and arbitrary experiments; CSV read back; hidden-factor exposure check over D",
-                text="Per design of D (incl. weighted factors outside the crossing) tuples/dicts/CSV outputs must reproduce the user factors' values per trial in design order and nothing else; raw helpers on random experiment lists.",
-                note="csv module used as reader.", ref="4.1 C20"),
+    "C20": dict(cat="other", tech="pyvc.wp proofs of _experiments_to_tuples and _experiments_to_dicts on the real source (all experiment lists and key lists; zip(*rows), dict(zip()) via builtin contracts) + bounded contract evaluation of the public conversion functions on synthesized and arbitrary experiments; CSV read back; hidden-factor exposure check over D",
+                text="Proved: per experiment in order, as many trials as the shortest selected column, trial t holds exactly experiments[e][keys[j]][t] at position j / under key keys[j], no other keys. Bounded: per design of D (incl. weighted factors outside the crossing) tuples/dicts/CSV outputs must reproduce the user factors' values per trial in design order and nothing else; raw helpers on random experiment lists.",
+                note="csv module used as reader. Proved for all inputs: the two private conversion helpers; bounded: name filtering (__filter_hidden*), the CSV writer and the public wrappers. Builtin contracts of zip(*rows) and dict(zip(keys, tuple)) are assumed.", ref="4.1 C20 / 11.7"),
     "C21": dict(cat="exploration", tech="contract on captured stdout of tabulate_experiments over seeded experiments, factor and trial selections",
                 text="Printed frequency == count of selected trials with the combination; percentage == 100*frequency/selected within 1e-9; every combination once.",
                 note="At least one selected trial; experiments include trials whose value is '' or a level the selected Factor does not list; the counting loop is inside a printing function and outside the deductive engines.", ref="4.1 C21"),
